@@ -86,6 +86,8 @@ def merge_cases(pid, tier, seed):
     cases += hist_run.history_cases(hist_run.run_reuse_histories())
     # scripted: a multi-element message fails at its k-th element, then valid messages touch what it had looked up
     cases += hist_run.history_cases(hist_run.run_fault_then_valid_histories())
+    # scripted: histories on 2100-element running orders (count-preserving edits, then look-ups of the edited elements)
+    cases += hist_run.history_cases(hist_run.run_big_histories())
     return cases
 
 
@@ -183,4 +185,4 @@ def replay(payload):
     return handler(pid, fl)
 
 
-REPLAYERS = {'sources': io_family.replay_c18, 'sources-bytes': io_family.replay_c18, 'listing': io_family.replay_c18, 'collection-sources': io_family.replay_c18, 'cli': io_family.replay_c19, 'cli-s3': io_family.replay_c19_s3, 'cli-process': io_family.replay_c19_s3, 'alias-history': alias_family.replay, 'alias-targeted': alias_family.replay, 'alias-fresh-process': alias_family.replay, 'roundtrip': ser_family.replay, 'elements': elem_family.replay, 'classify': class_family.replay, 'classify-bytes': class_family.replay, 'access': access_family.replay, 'collection': coll_family.replay, 'collection-perm': coll_family.replay, 'validate': coll_family.replay, 'collection-stages': coll_family.replay}
+REPLAYERS = {'sources': io_family.replay_c18, 'sources-bytes': io_family.replay_c18, 'listing': io_family.replay_c18, 'collection-sources': io_family.replay_c18, 'cli': io_family.replay_c19, 'cli-s3': io_family.replay_c19_s3, 'cli-process': io_family.replay_c19_s3, 'alias-history': alias_family.replay, 'alias-targeted': alias_family.replay, 'alias-fresh-process': alias_family.replay, 'roundtrip': ser_family.replay, 'roundtrip-locale': ser_family.replay_locale, 'elements': elem_family.replay, 'classify': class_family.replay, 'classify-bytes': class_family.replay, 'access': access_family.replay, 'collection': coll_family.replay, 'collection-perm': coll_family.replay, 'validate': coll_family.replay, 'collection-stages': coll_family.replay}
